@@ -157,7 +157,7 @@ fn oracle(c: &Case, st: &mut Stats) -> Result<(), String> {
   let joined = lines.join("\n");
   let key_b64 = BASE64_STANDARD.encode(&created[0].key);
   // the outcome of a call must not depend on earlier calls: optionally precede every
-  // grouping call by one that is rejected while decoding (after some valid lines)
+  // grouping call by one that carries line noise (after some valid lines)
   let poison_text: Option<String> = match c.poison {
     1 => Some(format!("{}\n{}\n", created[0].share_b64, created[created.len() - 1].share_b64)),
     2 => {
@@ -173,10 +173,18 @@ fn oracle(c: &Case, st: &mut Stats) -> Result<(), String> {
   let poison = |st: &mut Stats| -> Result<(), String> {
     if let Some(p) = &poison_text {
       st.evals(1);
-      if let Some(k) = star_wasm::group_shares(p, &c.epoch) {
-        return Err(format!("group_shares accepted a batch with an undecodable line and returned {k}: {p:?}"));
+      // Whether line noise (a trailing newline, a line that is not base64) makes the call fail or is
+      // skipped is not pinned by the property; only what may come back is: nothing, or - for the batch
+      // made of this measurement's own shares - the clients' key; and nothing at all when the batch
+      // holds no share.
+      match (c.poison, star_wasm::group_shares(p, &c.epoch)) {
+        (1, Some(k)) if k != key_b64 => {
+          return Err(format!("group_shares returned {k} for shares of one measurement followed by an empty line, the clients' key is {key_b64}: {p:?}"));
+        }
+        (3, Some(k)) => return Err(format!("group_shares returned {k} for a batch that holds no share at all: {p:?}")),
+        (_, Some(_)) => st.class("preceded-by-a-call-with-line-noise:answered"),
+        (_, None) => st.class("preceded-by-a-call-with-line-noise:refused"),
       }
-      st.class("preceded-by-a-rejected-call");
     }
     Ok(())
   };
